@@ -233,8 +233,21 @@ func Check_Fidelity() {
 		sx.Reach("refused-at-add")
 		return
 	}
+	// what the application does around the send: nothing special; it reads the
+	// record's buffer first (e.g. to log or size it); or it retries the same set
+	// once after a refusal
+	use := sx.Choose("applicationUse", 3)
+	if use == 1 {
+		_ = ds.GetRecords()[0].GetBuffer()
+		_ = ds.GetSetLength()
+	}
 	before := len(conn.Writes)
 	_, err = ep.SendSet(ds)
+	if err != nil && use == 2 {
+		sx.Assert(len(conn.Writes) == before, "refusal-writes-nothing")
+		_, err = ep.SendSet(ds)
+		sx.Reach("retried")
+	}
 	if err != nil {
 		sx.Assert(len(conn.Writes) == before, "refusal-writes-nothing")
 		sx.Reach("refused-at-send")
